@@ -681,8 +681,8 @@ def load_mods():
 
 
 def plan(tier, seed, scale=1.0):
-    n = int((400 if tier == "quick" else 7000) * scale)
-    return [{"n": n, "timeout": 1700} for _ in range(16)]
+    n = int((1600 if tier == "quick" else 40000) * scale)
+    return [{"n": n, "timeout": 6000} for _ in range(16)]
 
 
 def run_shard(shard, rep):
